@@ -254,11 +254,13 @@ def run(tier):
     specs.selfcheck()
     PAIRS.clear()
     h = build()
+    msyn = h.monomorphise(['f32', 'f64'], bound='<S: BaseFloat>', method_syntax='only', soft=True)
     S, inv, meta = facts.extract(PROP, h.src())
-    report_dropped(run, meta)
+    report_dropped(run, meta, h)
     run_specs(run, S, h, custom={'inverse': check_inverse, 'inverse_vec': check_inverse, 'mat_inverse_vec': check_mat_inverse_vec, 'to_matrix': check_to_matrix,
                                  'commute_point': check_commute, 'commute_vector': check_commute, 'commute_concat': check_pair, 'concat_apply': check_pair})
     run.floor('roots', len(run.roots), len(h.specs))
+    run.notes['monomorphic_method_syntax_roots'] = len([n_ for n_ in msyn if n_ in run.roots])
     return run.finish(
         explanation='For Decomposed with Quaternion, Basis3 and Basis2 rotations: one, transform_vector = R(s v), transform_point = R(s p) + d, concat = (s1 s2, R1 R2, R1(s1 d2) + d1), Mul and concat_self = concat, inverse_transform = (1/s, R^-1, -R^-1(d)/s) and inverse_transform_vector = R^-1(v/s), each Some only under a test "scale ~ 0 is false" whose tolerance operands are the scalar defaults and None only when that test holds (reflexivity gives None for scale = 0); conversion to Matrix3/Matrix4 = [sR | d; 0 1]; conversion commutes with applying and composing, and concat(s,t)(p) = s(t(p)), both checked by comparing the summaries of the two compositions modulo unit rotations. For Matrix3 (2-D, 3-D) and Matrix4: one, concat_self and inverse_transform_vector (None exactly when det = 0, else M^-1 applied to the direction); their other Transform methods are decided under C01/C02.',
         trusted_base=['rustc nightly type checking / trait resolution / MIR construction', 'mirsum abstract interpreter and models', 'approx: X_ne = not X_eq, X_eq(x, x) holds; f32/f64 default_epsilon <= 1e-6 (assumption for the |scale| > 1e-6 clause)', 'rules/algebra.py, rules/specs.py (selfcheck)', 'only the three shipped rotation types are instantiated'],
